@@ -445,6 +445,17 @@ def run(ctx):
             if r:
                 ctx.oracle_fail(c, r[0], r[1])
             ctx.count(("ni", decoy, com), True, "nested-include-other-folder")
+    # identical comments on one level are written once - also when the first of them got the id 0 (the first comment of the
+    # first file a process reads, or the first after a reset / the wrap of the counter)
+    for start in (-1, 999999, 41):
+        for text, lcs in (("// all values in SI units\na  1;\n// all values in SI units\nb  2;\n", [(0, 0, "// all values in SI units"), (0, 0, "// all values in SI units")]),
+                          ("s\n{\n    // x\n    a  1;\n    // x\n    b  2;\n}\n// x\n", [(1, 1, "// x"), (1, 1, "// x"), (0, 0, "// x")])):
+            c = {"text": text, "line_comments": lcs, "block_comments": [], "includes": [], "own_header": False, "files": {}, "chain": False}
+            native.set_counter(start)
+            r = oracle(c)
+            if r:
+                ctx.oracle_fail(c, r[0], r[1])
+            ctx.count(("id0", start, text), True, "repeated-comment-at-id-0")
     cases = []
     for i in range(ctx.n(500, 12000)):
         s = gen_source(rng, hazardous=(i % 4 != 0))
